@@ -9,6 +9,20 @@ package db
 //@   pure
 //@   ensures result != nil
 
+// Diagnostics: writing to standard output or the log does not touch program state.
+//@ extern fmt.Println
+//@   pure
+//@ extern fmt.Printf
+//@   pure
+//@ extern fmt.Print
+//@   pure
+//@ extern log.Printf
+//@   pure
+//@ extern log.Println
+//@   pure
+//@ extern log.Print
+//@   pure
+
 //@ extern fmt.Sprintf
 //@   pure
 //@   ensures [autoindex] streq(format, "sqlite_autoindex_%s_%d") && len(a) == 2 && hasType(a[0], "string") && hasType(a[1], "int") ==> result == autoindex_name(deref(a[0], "string"), deref(a[1], "int"))
